@@ -1,15 +1,7 @@
 //! vcheck: property-based / fuzzing checks for pmtiles2 (see /verif/DESIGN.md).
 
-#[macro_use]
-pub mod engine;
-pub mod libx;
-pub mod model;
-pub mod props;
-pub mod sandbox;
-pub mod sio;
-pub mod spec;
-
-use engine::{Ctx, Known, Recorder, Tier};
+use vcheck::engine::{self, Ctx, Known, Recorder, Tier};
+use vcheck::{props, sandbox};
 use std::path::PathBuf;
 
 fn usage() -> ! {
@@ -91,6 +83,30 @@ fn main() {
             std::process::exit(code);
         }
         "worker" => sandbox::worker_main(),
+        "c08-judge" => {
+            // vcheck c08-judge <target> <artifact file>: re-judge a libFuzzer artifact through the sandboxed worker
+            let target = args.get(2).cloned().unwrap_or_default();
+            let path = args.get(3).cloned().unwrap_or_default();
+            let data = std::fs::read(&path).unwrap_or_default();
+            match vcheck::fuzz_entry::job_for(&target, &data) {
+                None => std::process::exit(2),
+                Some(job) => match props::c08::judge_with(&job, true) {
+                    Ok(m) => {
+                        println!("HOLDS {:?}", m.labels);
+                        std::process::exit(0)
+                    }
+                    Err(f) => {
+                        println!("FAILS {} :: {}", f.sig, f.msg);
+                        std::process::exit(1)
+                    }
+                },
+            }
+        }
+        "c08-corpus" => {
+            let n = props::c08::write_fuzz_corpus(&PathBuf::from(&file)).unwrap_or(0);
+            println!("{n} corpus files written to {file}");
+            std::process::exit(if n > 0 { 0 } else { 2 });
+        }
         "emit" => props::c16::emit_main(&file),
         _ => usage(),
     }
